@@ -297,7 +297,14 @@ func scenarioMain(args []string) int {
 	fs := flag.NewFlagSet("scenario", flag.ExitOnError)
 	name := fs.String("name", "govupdate", "scenario")
 	keys := fs.String("keys", "", "print committed keys with this prefix at the end")
+	list := fs.Bool("list", false, "print the scenario names")
 	fs.Parse(args)
+	if *list {
+		for _, n := range scenarioNames {
+			say("%s\n", n)
+		}
+		return 0
+	}
 	w := NewWorld(3, 5, 2)
 	h := scenarioHistory(*name, w)
 	rep := NewReplica(genesisVariant(w, scenarioGenesis(*name)), ReplicaOpts{NodeVal: w.Vals[0].Val})
